@@ -16,6 +16,7 @@ type pauseManager struct {
 	subscribers sync.Map // Map of *ControlChans to struct{}
 	isPaused    atomic.Bool
 	message     string
+	resumeMu    sync.Mutex // Serializes Resume() calls
 }
 
 var manager = &pauseManager{}
@@ -69,7 +70,17 @@ func Pause(message ...string) {
 }
 
 // Resume reads from each subscriber's ResumeCh to unblock them.
+// It does nothing when the pipeline is not paused: subscribers only send on their ResumeCh after
+// having received a pause signal, so waiting for them otherwise would block forever (and a Resume
+// left waiting would swallow the acknowledgements of the next Pause).
 func Resume() {
+	manager.resumeMu.Lock()
+	defer manager.resumeMu.Unlock()
+
+	if !manager.isPaused.Load() {
+		return
+	}
+
 	var wg sync.WaitGroup
 	manager.subscribers.Range(func(key, _ interface{}) bool {
 		chans := key.(*ControlChans)
